@@ -546,3 +546,206 @@ DATA_SOUP = {
 
 def data_soup(rng, fmt, n):
     return "".join(rng.choice(DATA_SOUP[fmt]) for _ in range(n))
+
+
+# ----------------------------------------------------------------------------- well-formed data documents
+# Grammar-generated JSON / YAML / TOML documents: every container form of the format, nested, with
+# leaves drawn from pools of edge scalars (non-finite and huge numbers, dates, non-ASCII and empty
+# strings, anchors / aliases / tags ...), so that a special scalar is met at every structural
+# position (top level, table, dotted key, inline table, array, array of tables, inline table inside
+# an array, ...).
+
+TOML_FINITE = ["1.0", "-0.5", "3.14", "1e10", "6.02e+23", "0.0", "-0.0", "1_000.5"]
+TOML_NONFINITE = ["inf", "+inf", "-inf", "nan", "+nan", "-nan"]
+TOML_OTHER = ["0", "-1", "42", "9223372036854775807", "-9223372036854775808", "0x1F", "0o17", "0b101", "1_000", '"a"', '""', '"é日"', "'lit'",
+              '"esc\\n\\t\\u00e9"', '"""multi\nline"""', "'''raw\n'''", "true", "false", "1979-05-27T07:32:00Z", "1979-05-27T07:32:00", "1979-05-27", "07:32:00"]
+TOML_KEYS = ["a", "b", "c", "x", "y", "name", "k1", "k-2", "k_3", '"q k"', '"é"', "'lit.key'", "1", '""']
+
+
+class TomlDoc:
+    """A toml_edit-shaped tree: item = ('V', value) | ('T', [(key, item)]) | ('A', [[(key, item)]]);
+    value = ('f', text) finite float | ('n', text) non-finite float | ('o', text) other scalar
+          | ('a', [value]) array | ('i', [(key, value)]) inline table."""
+
+    def __init__(self, rng, p_nonfinite):
+        self.r = rng
+        self.p = p_nonfinite       # per-float probability (in 1/100) of inf / nan
+
+    def keys(self, n):
+        return self.r.shuffle(TOML_KEYS)[:n]
+
+    def value(self, d):
+        r = self.r
+        c = r.below(10) if d > 0 else r.below(5)
+        if c < 3:
+            if r.below(100) < self.p:
+                return ("n", r.choice(TOML_NONFINITE))
+            return ("f", r.choice(TOML_FINITE))
+        if c < 5:
+            return ("o", r.choice(TOML_OTHER))
+        if c < 8:
+            return ("a", [self.value(d - 1) for _ in range(r.range(0, 3))])
+        ks = self.keys(r.range(0, 3))
+        return ("i", [(k, self.value(d - 1)) for k in ks])
+
+    def table(self, d):
+        r = self.r
+        ks = self.keys(r.range(0, 4))
+        ents = []
+        for k in ks:
+            c = r.below(10) if d > 0 else 0
+            if c < 6:
+                ents.append((k, ("V", self.value(d))))
+            elif c < 8:
+                ents.append((k, ("T", self.table(d - 1))))
+            else:
+                ents.append((k, ("A", [self.table(d - 1) for _ in range(r.range(1, 3))])))
+        return ents
+
+    # ---- rendering
+    def rv(self, v):
+        t = v[0]
+        if t in "fno":
+            return v[1]
+        if t == "a":
+            return "[" + ", ".join(self.rv(x) for x in v[1]) + ("," if v[1] and self.r.chance(1, 4) else "") + "]"
+        return "{ " + ", ".join("%s = %s" % (k, self.rv(x)) for k, x in v[1]) + " }" if v[1] else "{}"
+
+    def render(self, ents, path, out):
+        later = []
+        for k, it in ents:
+            if it[0] == "V":
+                out.append("%s = %s" % (k, self.rv(it[1])))
+            elif it[0] == "T" and it[1] and all(x[0] == "V" for _, x in it[1]) and self.r.chance(1, 3):
+                for k2, x in it[1]:            # dotted keys: an implicit (dotted) table
+                    out.append("%s.%s = %s" % (k, k2, self.rv(x[1])))
+            else:
+                later.append((k, it))
+        for k, it in later:
+            p = path + [k]
+            if it[0] == "T":
+                out.append("[%s]" % ".".join(p))
+                self.render(it[1], p, out)
+            else:
+                for el in it[1]:
+                    out.append("[[%s]]" % ".".join(p))
+                    self.render(el, p, out)
+
+    # ---- the model's view (keys dropped)
+    def mv(self, v):
+        t = v[0]
+        if t in "fno":
+            return t
+        return t + "[" + "".join(self.mv(x if t == "a" else x[1]) for x in v[1]) + "]"
+
+    def mi(self, it):
+        if it[0] == "V":
+            return "V" + self.mv(it[1])
+        if it[0] == "T":
+            return "T[" + "".join(self.mi(x) for _, x in it[1]) + "]"
+        return "A[" + "".join("[" + "".join(self.mi(x) for _, x in el) + "]" for el in it[1]) + "]"
+
+    def document(self, depth):
+        ents = self.table(depth)
+        out = []
+        self.render(ents, [], out)
+        return "\n".join(out) + "\n", self.mi(("T", ents))
+
+
+JSON_SCALARS = ["0", "-0", "1", "-1", "0.1", "1e3", "1E+2", "1e-400", "1e400", "-1e400", "123456789012345678901234567890", "9007199254740993", "1.7976931348623157e308",
+                "true", "false", "null", '""', '"a"', '"é"', '"\\u00e9"', '"\\ud83d\\ude00"', '"\\ud800"', '"\\n\\t\\\\\\""', '"%{x}"', '"1e400"', '"\\u0000"']
+JSON_KEYS = ['"a"', '"b"', '""', '"é"', '"a b"', '"a"', '"%{k}"', '"1"', '"\\u0000"', '"if"']
+
+
+def json_doc(rng, d):
+    c = rng.below(10) if d > 0 else 0
+    if c < 4:
+        return rng.choice(JSON_SCALARS)
+    ws = rng.choice(["", " ", "\n ", "\t"])
+    if c < 7:
+        return "[" + ws + ("," + ws).join(json_doc(rng, d - 1) for _ in range(rng.range(0, 4))) + ws + "]"
+    return "{" + ws + ("," + ws).join("%s:%s%s" % (rng.choice(JSON_KEYS), ws, json_doc(rng, d - 1)) for _ in range(rng.range(0, 4))) + ws + "}"
+
+
+YAML_SCALARS = ["1", "-1", "0.5", "1e3", "1e400", "-1e400", ".inf", "-.inf", "+.inf", ".nan", ".NaN", "~", "null", "Null", "true", "False", "yes", "no", "on", "0x1F", "0o17", "017",
+                "1_000", "+1", "1:20", "2001-01-01", "2001-12-14t21:59:43.10-05:00", "a", "a b", "é", "'q'", '"d\\n\\x41\\u00e9"', '""', "''", "-", "?", "|", "@a", "`a", "%a",
+                "!!str 1", "!!int '3'", "!!float 1", "!!bool yes", "!!null ''", "!!binary aGVsbG8=", "!custom x", "!!set {a, b}", "123456789012345678901234567890", "0b101", "<<", "=", "[]", "{}"]
+YAML_KEYS = ["a", "b", "c", "é", "'q k'", '"d k"', "1", "true", "null", "~", "<<", "? [x]\n", "!!str k", "a b"]
+
+
+class YamlDoc:
+    def __init__(self, rng):
+        self.r = rng
+        self.anchors = []
+        self.n = 0
+
+    def anchor(self):
+        r = self.r
+        if r.chance(1, 5):
+            self.n += 1
+            a = "x%d" % self.n
+            self.anchors.append(a)
+            return "&%s " % a
+        return ""
+
+    def scalar(self):
+        r = self.r
+        if r.chance(1, 6):
+            return "*" + (r.choice(self.anchors) if self.anchors and r.chance(9, 10) else "nope")
+        return self.anchor() + r.choice(YAML_SCALARS)
+
+    def flow(self, d):
+        r = self.r
+        c = r.below(10) if d > 0 else 0
+        if c < 5:
+            return self.scalar()
+        if c < 8:
+            return self.anchor() + "[" + ", ".join(self.flow(d - 1) for _ in range(r.range(0, 3))) + "]"
+        return self.anchor() + "{" + ", ".join("%s: %s" % (self.key(), self.flow(d - 1)) for _ in range(r.range(0, 3))) + "}"
+
+    def key(self):
+        r = self.r
+        k = r.choice(YAML_KEYS)
+        if k.startswith("?"):
+            return "x"
+        return (self.anchor() if r.chance(1, 4) else "") + k
+
+    def block(self, d, ind):
+        """lines of a block node at indentation ind"""
+        r = self.r
+        pad = " " * ind
+        c = r.below(10) if d > 0 else 0
+        if c < 3:
+            return [pad + self.flow(1)]
+        if c < 4:
+            return [pad + r.choice(["|", ">", "|-", ">+", "|2"]), pad + "  text é", pad + "  more"]
+        if c < 7:
+            out = []
+            for _ in range(r.range(1, 3)):
+                sub = self.block(d - 1, ind + 2)
+                out.append(pad + "- " + sub[0].strip())
+                out += sub[1:]
+            return out
+        out = []
+        a = self.anchor()
+        if a:
+            out.append(pad + a.strip())
+        for _ in range(r.range(1, 3)):
+            k = self.key()
+            if r.chance(1, 8):
+                out.append(pad + "<<: " + ("*" + r.choice(self.anchors) if self.anchors else "{a: 1}"))
+                continue
+            if r.chance(1, 2):
+                out.append(pad + k + ": " + self.flow(1))
+            else:
+                out.append(pad + k + ":")
+                out += self.block(d - 1, ind + 2)
+        return out
+
+    def document(self, depth):
+        r = self.r
+        docs = []
+        for _ in range(1 if r.chance(4, 5) else r.range(2, 3)):
+            docs.append("\n".join(self.block(depth, 0)))
+        head = r.choice(["", "", "---\n", "%YAML 1.2\n---\n"])
+        return head + "\n---\n".join(docs) + r.choice(["\n", "\n...\n", ""])
